@@ -107,6 +107,8 @@ def div(x, y, where=None):
 
 
 def power(x, p, where=None):
+    if p == 0:
+        return Iv.point(1.0)
     if x.lo < 0:
         if float(p).is_integer() and p >= 0:
             p = int(p)
